@@ -33,6 +33,8 @@ class GenOpts(object):
         self.chain_focus = 0          # 1/n of schemas end with typedef -> struct/union -> enumerator-sized array chains
         self.tail_focus = 0           # 1/n of schemas end with a (struct ending in greedy, struct ending in that struct) pair
         self.const_ref_bias = 6      # 1/n of sizes / discriminators refer to a constant when one fits
+        self.intlike_bias = 5         # 1/n of integer members (sizers among them) are typed by a typedef (chain) of an integer
+        self.block_focus = 0          # 1/n of schemas get a struct of 3-5 blocks whose bound arrays find their sizers in any earlier block
         self.const_exprs = False      # constants / enumerators given as expressions over earlier names
         self.min_decls = 1
         self.max_decls = 6
@@ -97,7 +99,9 @@ class _Builder(object):
         return None
 
     def pick_int_type(self):
-        if self.intlike and self.draw(st.integers(0, 4)) == 0:
+        if self.intlike and self.draw(st.integers(0, self.o.intlike_bias - 1)) == 0:
+            if self.o.intlike_bias < 5 and self.draw(st.booleans()):
+                return self.intlike[-1]         # the most recent one: more often the end of a chain of typedefs
             return self.draw(st.sampled_from(self.intlike))
         return self.draw(st.sampled_from(INTS))
 
@@ -345,7 +349,41 @@ class _Builder(object):
             self.add_dependency_chain()
         if self.o.alias_focus and self.draw(st.integers(0, self.o.alias_focus - 1)) == 0:
             self.add_alias_chains()
+        if self.o.block_focus and self.draw(st.integers(0, self.o.block_focus - 1)) == 0:
+            self.add_multiblock_struct()
         return Schema(self.decls)
+
+    def add_multiblock_struct(self):
+        """A struct of 3-5 blocks (each closed by a dynamic field).  Arrays bound to a sizer (`T x<@n>`) pick the sizer
+        among the integer members of *any* earlier position - the same block, the first block or one in between -
+        a composition that unbiased generation reaches rarely."""
+        name = self.fresh('S')
+        pool = iter(self.draw(st.permutations(FIELD_NAMES)))
+        members, ints, used = [], [], set()
+        for b in range(self.draw(st.integers(3, 5))):
+            for _ in range(self.draw(st.integers(0 if b and ints else 1, 2))):
+                t = self.pick_int_type() if self.draw(st.integers(0, 2)) else self.draw(st.sampled_from(self.numeric_pool()))
+                m = Member(next(pool), t)
+                members.append(m)
+                if self._is_int(t):
+                    ints.append(m.name)
+            free = [i for i in ints if not (self.o.cpp_full_ok and i in used)]
+            if self.o.allow_ext and free and self.draw(st.integers(0, 2)):
+                sizer = self.draw(st.sampled_from(free))
+                used.add(sizer)
+                members.append(Member(next(pool), self.pick_type(FIXED), EXTARR, sizer=sizer))
+            else:
+                members.append(Member(next(pool), self.pick_type(FIXED), DYNARR))
+        if self.draw(st.booleans()):
+            members.append(Member(next(pool), self.draw(st.sampled_from(self.numeric_pool()))))
+        if 'raw_part_alignment_decrease' in self.o.avoid:
+            from .common import struct_is_x8_shaped
+            probe = Schema(self.decls + [Struct(name, members)])
+            if struct_is_x8_shaped(RefWire(probe), probe.by_name[name]):
+                return
+        self.decls.append(Struct(name, members))
+        self.stiff[name] = DYNAMIC
+        self.vec[name] = any(self.vec.get(m.type, False) for m in members)
 
     def add_alias_chains(self):
         """Typedef chains (depth 1-3) over a dynamic struct and over a fixed struct, used where the generators must
